@@ -154,6 +154,13 @@ type CallbackSpec struct {
 	Props    []string
 }
 
+type SpecFunc struct {
+	Pkg    string
+	Name   string
+	Params []QVar
+	Result string
+}
+
 type AxiomSpec struct {
 	Pkg   string
 	Name  string
@@ -169,11 +176,12 @@ type SpecSet struct {
 	Types     map[string]*TypeSpec
 	Callbacks map[string]*CallbackSpec
 	Axioms    []*AxiomSpec
+	SpecFuncs map[string]*SpecFunc
 	Files     []string
 }
 
 func NewSpecSet() *SpecSet {
-	return &SpecSet{Funcs: map[string]*FuncSpec{}, Pures: map[string]*PureFunc{}, Types: map[string]*TypeSpec{}, Callbacks: map[string]*CallbackSpec{}}
+	return &SpecSet{Funcs: map[string]*FuncSpec{}, Pures: map[string]*PureFunc{}, Types: map[string]*TypeSpec{}, Callbacks: map[string]*CallbackSpec{}, SpecFuncs: map[string]*SpecFunc{}}
 }
 
 // LoadSpecs reads every verif_contracts*.go below root.  pkgOf maps a directory to its package path.
@@ -275,6 +283,30 @@ func (ss *SpecSet) parseFile(file, pkg, src string) error {
 			if _, dup := ss.Pures[name]; !dup {
 				ss.Pures[name] = pf
 			}
+			curF, curLoop, curLemma, curType = nil, nil, nil, nil
+		case "spec":
+			// spec func name(a T, b U) R   -- uninterpreted, constrained by axioms
+			w2, r2 := splitWord(rest)
+			if w2 != "func" {
+				return fail(sl.line, "expected 'spec func'")
+			}
+			op := strings.Index(r2, "(")
+			cp := matchParen(r2, op)
+			sf := &SpecFunc{Pkg: pkg, Name: strings.TrimSpace(r2[:op]), Result: strings.TrimSpace(r2[cp+1:])}
+			for _, p := range splitTop(r2[op+1:cp], ',') {
+				p = strings.TrimSpace(p)
+				if p == "" {
+					continue
+				}
+				n, ty := splitWord(p)
+				sf.Params = append(sf.Params, QVar{n, strings.TrimSpace(ty)})
+			}
+			for i := len(sf.Params) - 2; i >= 0; i-- {
+				if sf.Params[i].Type == "" {
+					sf.Params[i].Type = sf.Params[i+1].Type
+				}
+			}
+			ss.SpecFuncs[sf.Name] = sf
 			curF, curLoop, curLemma, curType = nil, nil, nil, nil
 		case "func":
 			fs, err := parseFuncHead(rest)
